@@ -90,3 +90,48 @@ def run(ck):
     qf = lib.single(prog, M + "Q::fromFloat")
     rounds = [e for e in qf.calls(lambda e: (e.get("callee") or "") in ("round", "std::round", "lround", "std::lround", "llround", "nearbyint", "std::nearbyint", "rint", "std::rint"))]
     ck.ob("C18-R4", "Q::fromFloat/rounds", bool(rounds), qf.loc, qf, "round(f * 100.0)" if rounds else "the quality is truncated: q=0.29 parses back as 0.28")
+
+    # ---------------- R5: a parsed media type prints as the text it was parsed from ----------------
+    ck.rule("C18-R5", "C must-pass-through",
+            "MediaType::parseRaw stores the text it is given (raw_ = std::string(str, len)) on every path, and MediaType::toString "
+            "answers with that text whenever it is there: from the edge on which raw_ is not empty every return is `return raw_`", 2)
+    RAW = M + "MediaType::raw_"
+    is_raw_store = lambda e: (e["k"] == "call" and e.get("op") == "=" and strip_tmpl((e.get("recv") or {}).get("f") or "") == RAW) or \
+        (e["k"] == "assign" and strip_tmpl((e.get("lhs") or {}).get("f") or "") == RAW)
+    stores = [e for e in pr.events(("call", "assign")) if is_raw_store(e)]
+    p0, p1 = (pr.params[0]["name"], pr.params[1]["name"]) if len(pr.params) >= 2 else ("?", "?")
+    import re as _re
+    whole = [e for e in stores if _re.search(r"\b%s\b" % _re.escape(p0), " ".join(a.get("t") or "" for a in e.get("args", [])) + ((e.get("rhs") or {}).get("t") or "")) and
+             _re.search(r"\b%s\b" % _re.escape(p1), " ".join(a.get("t") or "" for a in e.get("args", [])) + ((e.get("rhs") or {}).get("t") or ""))]
+    dom_pr = cfg.dominators(pr)
+    first_cons = [e for e in pr.events("call") if (e.get("callee") or "") in ("Pistache::match_string", "Pistache::match_raw", "Pistache::match_literal", "Pistache::match_until")]
+    ok_ = bool(whole) and (not first_cons or all(cfg.ev_dominates(dom_pr, whole[0], c_) for c_ in first_cons))
+    ck.ob("C18-R5", "parseRaw/keeps-the-text", ok_, whole[0].loc if whole else pr.loc, pr, "raw_ = std::string(%s, %s) before anything is matched" % (p0, p1))
+    nonempty = lib.result_edges(ts, "std::basic_string::empty", False)
+    nonempty = [(bid, k_) for bid, k_ in nonempty if ("f:" + RAW) in [strip_tmpl(r) for r in (ts.blocks[bid].term.get("refs") or [])]]
+    ck.require(nonempty, "`!raw_.empty()` test not found in MediaType::toString")
+    is_ret_raw = lambda e: e["k"] == "return" and ("f:" + RAW) in [strip_tmpl(r) for r in (e.get("refs") or [])] and (e.get("t") or "").strip() in ("this->raw_", "raw_")
+    for bid, k_ in nonempty:
+        bad_ = [x for x in cfg.exits_without(ts, is_ret_raw, start_block=ts.blocks[bid].succs[k_]) if x.kind != "throw"]
+        ck.ob("C18-R5", "toString/returns-the-parsed-text", not bad_, "%s:%s" % (ts.file, ts.blocks[bid].term.get("l")), ts,
+              "raw_ is returned whenever it is not empty" if not bad_ else
+              "with a non-empty raw_ toString() can rebuild the text from the parsed fields instead: spelling, separators and parameter order of the original are lost")
+
+    # letters of the grammar are never compared byte-for-byte: the quality parameter `q` and the table tokens go through the
+    # case-insensitive matchers
+    bodies5 = [pr] + prog.lambdas_in(pr)
+    sens = []
+    for g_ in bodies5:
+        for b in g_.blocks.values():
+            t_ = b.term
+            rc = (t_ or {}).get("rconst")
+            if t_ and t_.get("cmp") in ("==", "!=") and isinstance(rc, str) and rc.startswith("c:") and chr(int(rc[2:])).isalpha() and \
+                    any(r.startswith("c:Pistache::StreamCursor::") for r in (t_.get("leafrefs") or t_.get("refs") or [])):
+                sens.append((g_, t_))
+        for e in g_.events("cmp"):
+            rc = e.get("rconst")
+            if e.get("op") in ("==", "!=") and isinstance(rc, str) and rc.startswith("c:") and chr(int(rc[2:])).isalpha() and "cursor" in ((e.get("lhs") or {}).get("t") or ""):
+                sens.append((g_, e))
+    ck.ob("C18-R4", "parseRaw/letters-matched-case-insensitively", not sens, "%s:%s" % (pr.file, sens[0][1].get("l")) if sens else pr.loc, pr,
+          "no byte-for-byte comparison with a letter" if not sens else
+          "the byte under the cursor is compared with the letter %r directly: the other capitalisation of that grammar token is no longer recognised" % chr(int(sens[0][1]["rconst"][2:])))
